@@ -138,7 +138,8 @@ theorem setUnicast_flags (p : Pkt4) : (setUnicast p).flags = p.flags % 32768 := 
 
 /-! ### `OptionCodeList.Add` -/
 
-theorem addCodes_nil_std : addCodes [] stdRequested = stdRequested := by decide
+theorem addCodes_nil_std :
+    List.map (fun x => x.code) (addCodes (List.map OptCode.named []) stdRequested) = [1, 3, 15, 6] := by decide
 
 /-! ### what the default modifiers of each builder produce -/
 
@@ -194,7 +195,7 @@ theorem discovery_nil (xid hw : Bytes) :
     build (.discovery hw) xid [] =
       { basePkt xid with
           hw := hw,
-          opts := (Opts.empty.set optParamList stdRequested).set optMessageType [mtDiscover] } := by
+          opts := (Opts.empty.set optParamList [1, 3, 15, 6]).set optMessageType [mtDiscover] } := by
   simp only [build_nil, Builder.defaults, applyAll_cons, applyAll_nil, apply, requestOptions, setOpt,
     paramRequestList, basePkt, Opts.get_empty, Option.getD_none, addCodes_nil_std]
 
@@ -227,7 +228,7 @@ theorem renewFromAck_nil (xid : Bytes) (ack : Pkt4) :
       { basePkt xid with
           op := replyOp ack.op, htype := ack.htype, xid := ack.xid, hw := ack.hw,
           flags := ack.flags &&& unicastMask, ciaddr := ack.yiaddr,
-          opts := (Opts.empty.set optMessageType [mtRequest]).set optParamList stdRequested } := by
+          opts := (Opts.empty.set optMessageType [mtRequest]).set optParamList [1, 3, 15, 6] } := by
   have h55 : (Opts.empty.set optMessageType [mtRequest]).get optParamList = none := by decide
   simp only [build_nil, Builder.defaults, applyAll_cons, applyAll_nil, apply, basePkt, setOpt,
     setUnicast, Bool.false_eq_true, if_false, requestOptions, paramRequestList, h55, Option.getD_none,
@@ -240,7 +241,7 @@ theorem requestFromOffer_nil (xid : Bytes) (offer : Pkt4) :
           flags := offer.flags, ciaddr := offer.ciaddr,
           opts := (copyOpt offer optServerID
                     ((Opts.empty.set optMessageType [mtRequest]).set optRequestedIP (ipTo4Bytes offer.yiaddr))).set
-                      optParamList stdRequested } := by
+                      optParamList [1, 3, 15, 6] } := by
   have h55 : (copyOpt offer optServerID
       ((Opts.empty.set optMessageType [mtRequest]).set optRequestedIP (ipTo4Bytes offer.yiaddr))).get optParamList = none := by
     rw [copyOpt_get_ne _ _ (by decide)]
